@@ -31,6 +31,7 @@ func init() {
 		"Int":   func(e *Engine, st *State, fn *ssa.Function, a []Value, ins ssa.Instruction) []*State { return e.vpInput(st, a, "int", 64) },
 		"Bool":  func(e *Engine, st *State, fn *ssa.Function, a []Value, ins ssa.Instruction) []*State { return e.vpInput(st, a, "bool", 0) },
 		"Bytes": vpBytes,
+		"FillFunc": vpFillFunc,
 		"Fill":  vpFill,
 		"Assume": func(e *Engine, st *State, fn *ssa.Function, a []Value, ins ssa.Instruction) []*State {
 			c, ok := a[0].(*Term)
@@ -84,6 +85,12 @@ func init() {
 		"Unwind": func(e *Engine, st *State, fn *ssa.Function, a []Value, ins ssa.Instruction) []*State {
 			if t, ok := a[0].(*Term); ok && t.IsConst() {
 				e.opts.Unwind = int(t.Val)
+			}
+			return e.ret(st, Tuple{})
+		},
+		"MaxLoop": func(e *Engine, st *State, fn *ssa.Function, a []Value, ins ssa.Instruction) []*State {
+			if t, ok := a[0].(*Term); ok && t.IsConst() {
+				e.maxLoop = int(t.Val)
 			}
 			return e.ret(st, Tuple{})
 		},
@@ -624,7 +631,11 @@ func (e *Engine) errChain(st *State, v Value, ins ssa.Instruction) []Iface {
 			continue
 		}
 		// real type with Unwrap() error?
-		m := e.prog.LookupMethod(cur.Typ, nil, "Unwrap")
+		sel := e.prog.MethodSets.MethodSet(cur.Typ).Lookup(nil, "Unwrap")
+		if sel == nil {
+			break
+		}
+		m := e.prog.MethodValue(sel)
 		if m == nil {
 			break
 		}
@@ -849,4 +860,119 @@ func init() {
 		return e.ret(st, a[0])
 	}
 	intrinsics["internal/abi.Escape"] = intrinsics["internal/abi.NoEscape"]
+}
+
+// vp.FillFunc(p, fn): p[i] = fn(i) for every i < len(p), without a data-dependent loop
+// (len(p) may be symbolic; the physical capacity is concrete).
+func vpFillFunc(e *Engine, st *State, fn *ssa.Function, a []Value, ins ssa.Instruction) []*State {
+	p, ok := a[0].(Slice)
+	if !ok || p.Obj == nil {
+		return e.ret(st, Tuple{})
+	}
+	n := e.sliceCapN(st, p)
+	cur := st
+	for k := 0; k < n; k++ {
+		it := e.c64(k)
+		inr := e.tt.ULt(it, p.Len)
+		if inr == e.tt.False {
+			break
+		}
+		outs := e.invoke(cur, a[1], []Value{it}, nil, ins)
+		if len(outs) != 1 {
+			e.cutPath(cur, "vp.FillFunc callback forked or ended the path", ins)
+			return nil
+		}
+		cur = outs[0]
+		v := cur.ret
+		cur.status = stRunning
+		ptr := e.sliceElemPtr(p, it)
+		b := e.ownBoxOf(cur, ptr.Obj)
+		var g *Term
+		if inr != e.tt.True {
+			g = inr
+		}
+		b.V = e.storeAt(b.V, ptr.Path, v, g, cur.epoch)
+	}
+	return e.ret(cur, Tuple{})
+}
+
+// strings.ToUpper / ToLower on symbolic ASCII strings (concrete strings are executed from SSA).
+func init() {
+	mk := func(upper bool) intrinsic {
+		return func(e *Engine, st *State, fn *ssa.Function, a []Value, ins ssa.Instruction) []*State {
+			s, ok := a[0].(Str)
+			if !ok {
+				return e.ret(st, Poison{"strings case conversion"})
+			}
+			if c, ok := e.strToConcrete(st, s); ok {
+				if upper {
+					return e.ret(st, Str{Conc: true, S: strings.ToUpper(c)})
+				}
+				return e.ret(st, Str{Conc: true, S: strings.ToLower(c)})
+			}
+			n := e.strCap(st, s)
+			arr := &Agg{Elems: make([]Value, n), Epoch: -1}
+			ln := e.strLen(s)
+			for i := 0; i < n; i++ {
+				b := e.strByteUnchecked(st, s, e.c64(i))
+				if b.Hi >= 0x80 {
+					// restrict to ASCII (recorded as a cut of the non-ASCII inputs)
+					inr := e.tt.ULt(e.c64(i), ln)
+					ascii := e.tt.ULt(b, e.tt.Const(8, 0x80))
+					if e.feasible(st, e.tt.BAnd(inr, e.tt.BNot(ascii))) {
+						e.Cuts["non-ASCII bytes in symbolic string passed to strings.ToUpper/ToLower not explored"]++
+					}
+					st.assume(e.tt.Implies(inr, ascii))
+				}
+				var lo, hi uint64 = 'a', 'z'
+				if !upper {
+					lo, hi = 'A', 'Z'
+				}
+				in := e.tt.BAnd(e.tt.ULe(e.tt.Const(8, lo), b), e.tt.ULe(b, e.tt.Const(8, hi)))
+				var conv *Term
+				if upper {
+					conv = e.tt.Sub(b, e.tt.Const(8, 32))
+				} else {
+					conv = e.tt.Add(b, e.tt.Const(8, 32))
+				}
+				arr.Elems[i] = e.tt.Ite(in, conv, b)
+			}
+			e.Models["strings.ToUpper/ToLower on symbolic strings: ASCII model"] = true
+			o := e.newObj(st, nil, "strcase", arr)
+			return e.ret(st, e.normStr(st, Str{Obj: o, Off: e.c64(0), Len: ln}))
+		}
+	}
+	intrinsics["strings.ToUpper"] = mk(true)
+	intrinsics["strings.ToLower"] = mk(false)
+}
+
+// unicode/utf16.Decode on symbolic code units: the result is over-approximated by arbitrary
+// runes (length <= number of units). Concrete inputs are executed from the real SSA.
+func init() {
+	intrinsics["unicode/utf16.Decode"] = func(e *Engine, st *State, fn *ssa.Function, a []Value, ins ssa.Instruction) []*State {
+		s, ok := a[0].(Slice)
+		if !ok || s.Obj == nil {
+			return e.callBody(st, fn, a, nil, ins)
+		}
+		n := e.sliceCapN(st, s)
+		conc := s.Len.IsConst()
+		for i := 0; i < n && conc; i++ {
+			t, ok := e.loadPtr(st, e.sliceElemPtr(s, e.c64(i))).(*Term)
+			if !ok || !t.IsConst() {
+				conc = false
+			}
+		}
+		if conc {
+			return e.callBody(st, fn, a, nil, ins)
+		}
+		e.Models["unicode/utf16.Decode on symbolic units: result over-approximated by arbitrary runes"] = true
+		o := e.newArray(st, types.Typ[types.Int32], n, "utf16dec")
+		ag := e.ownBoxOf(st, o).V.(*Agg)
+		for i := 0; i < n; i++ {
+			ag.Elems[i] = e.tt.FreshVar("rune", 32)
+		}
+		ln := e.tt.FreshVar("runes", 64)
+		st.assume(e.tt.ULe(ln, s.Len))
+		return e.ret(st, Slice{Obj: o, Off: e.c64(0), Len: ln, Cap: e.c64(n)})
+	}
 }
